@@ -458,6 +458,8 @@ class Mpo(MatrixProduct):
         for i in range(new_mpo.site_num):
             new_mpo[i] = moveaxis(self[i], (1, 2), (2, 1)).conj()
         new_mpo.qn = [np.array([-i for i in mt_qn]) for mt_qn in new_mpo.qn]
+        # the Hermitian conjugate changes the quantum number by the opposite amount
+        new_mpo.qntot = -new_mpo.qntot
         return new_mpo
 
     def todense(self):
